@@ -112,13 +112,16 @@ func rtDecoratorParse(src []byte) ([]byte, error) {
 // a //line directive in column 1 whose next non-blank line is indented: go/printer keeps such a
 // comment in column 1 only when its recorded position has column 1, which a restored tree cannot
 // know (dst does not record comment indentation).
+// a generic alias declaration: type A[P any] = ... (the restorer orders '=' before '[')
+var genericAliasDecl = regexp.MustCompile(`(?m)^\s*(type\s+)?[A-Za-z_]\w*(\s*/\*[^\n]*\*/)*\s*\[[^\]\n]*\]\s*=[^=]`)
+
 var lineDirective = regexp.MustCompile(`(?m)^//line [^\n]*\n+\t`)
 
 // textPredicates evaluates a fixed list of dst-independent predicates on an input.
 func textPredicates(src []byte) []string {
 	var ps []string
-	if lineDirective.Match(src) {
-		ps = append(ps, "line-directive-col1-in-indented-code")
+	if genericAliasDecl.Match(src) {
+		ps = append(ps, "generic-type-alias")
 	}
 	if bytes.Contains(src, []byte("\r\n")) {
 		ps = append(ps, "crlf")
